@@ -2,6 +2,7 @@ package beaconblock
 
 import (
 	"fmt"
+	kbls "github.com/kilic/bls12-381"
 	"math/rand"
 
 	"github.com/protolambda/ztyp/tree"
@@ -858,6 +859,124 @@ func blsPrefixVariants(s *chain.Step, fs *flat.State) (out []blockVariant) {
 		e.f(&g.Validators[vi].WithdrawalCredentials)
 		out = append(out, blockVariant{e.label, "bls_change.credentials", &g, nil})
 	}
+	return out
+}
+
+// compensate returns a + x and b - x (G2 point arithmetic on the decompressed signatures): each of the two is an invalid
+// signature for its own message, their sum is unchanged — what a batched (aggregated) verification cannot see.
+func compensate(a, b, x common.BLSSignature) (common.BLSSignature, common.BLSSignature, bool) {
+	g := kbls.NewG2()
+	pa, e1 := g.FromCompressed(a[:])
+	pb, e2 := g.FromCompressed(b[:])
+	px, e3 := g.FromCompressed(x[:])
+	if e1 != nil || e2 != nil || e3 != nil || g.IsZero(px) {
+		return a, b, false
+	}
+	var ra, rb common.BLSSignature
+	nx := g.Neg(g.New(), px)
+	copy(ra[:], g.ToCompressed(g.Add(g.New(), pa, px)))
+	copy(rb[:], g.ToCompressed(g.Add(g.New(), pb, nx)))
+	return ra, rb, true
+}
+
+// compensatingMutants (c03): wherever the specification verifies SEVERAL signatures one by one, two of them are changed
+// to s1 + X and s2 - X (X = the block's randao reveal, a valid signature point): the two headers of a proposer slashing,
+// the two indexed attestations of an attester slashing, two voluntary exits, an exit and the randao reveal. Slashings
+// are made by hand when the block has none and a free validator exists.
+func compensatingMutants(c *chain.Chain, s *chain.Step, fs *flat.State) []chain.Mutant {
+	var out []chain.Mutant
+	spec := c.Spec
+	x := *s.Block.Body().RandaoReveal
+	add := func(label, rule string, f func(body chain.BodyRef) bool) {
+		b := s.Block.Clone(spec)
+		if !f(b.Body()) {
+			return
+		}
+		c.SignBlock(b, s.PreBlock)
+		out = append(out, chain.Mutant{Label: label, Rule: rule, Resigned: true, Block: b})
+	}
+	// a free validator for hand-made slashings
+	cur := fs.Slot / uint64(spec.SLOTS_PER_EPOCH)
+	body0 := s.Block.Body()
+	touched := map[common.ValidatorIndex]bool{s.Proposer: true}
+	for _, ex := range *body0.VoluntaryExits {
+		touched[ex.Message.ValidatorIndex] = true
+	}
+	if body0.BLSChanges != nil {
+		for _, ch := range *body0.BLSChanges {
+			touched[ch.BLSToExecutionChange.ValidatorIndex] = true
+		}
+	}
+	freeV, freeK, haveFree := common.ValidatorIndex(0), 0, false
+	for i := len(fs.Validators) - 1; i >= 0 && !haveFree; i-- {
+		f := &fs.Validators[i]
+		v := common.ValidatorIndex(i)
+		if touched[v] || f.Slashed || f.ActivationEpoch > cur || f.ExitEpoch != ^uint64(0) || f.WithdrawableEpoch != ^uint64(0) {
+			continue
+		}
+		if k, ok := c.KeyOf(v); ok {
+			freeV, freeK, haveFree = v, k, true
+		}
+	}
+	root := func(b byte) (r common.Root) {
+		r[0], r[1], r[31] = 0xc5, b, byte(fs.Slot)
+		return
+	}
+	add("proposer_slashing.signatures:compensating(s1+X,s2-X)", "proposer_slashing.signature", func(body chain.BodyRef) bool {
+		ps := body.ProposerSlashings
+		if len(*ps) == 0 {
+			if !haveFree || uint64(spec.MAX_PROPOSER_SLASHINGS) == 0 {
+				return false
+			}
+			h1 := common.BeaconBlockHeader{Slot: common.Slot(fs.Slot), ProposerIndex: freeV, ParentRoot: root(1), StateRoot: root(2), BodyRoot: root(3)}
+			h2 := h1
+			h2.BodyRoot = root(4)
+			*ps = append(*ps, phase0.ProposerSlashing{SignedHeader1: c.SignHeader(s.PreBlock, h1, freeK), SignedHeader2: c.SignHeader(s.PreBlock, h2, freeK)})
+		}
+		p := &(*ps)[len(*ps)-1]
+		a, b, ok := compensate(p.SignedHeader1.Signature, p.SignedHeader2.Signature, x)
+		p.SignedHeader1.Signature, p.SignedHeader2.Signature = a, b
+		return ok
+	})
+	add("attester_slashing.signatures:compensating(s1+X,s2-X)", "attester_slashing.signature", func(body chain.BodyRef) bool {
+		as := body.AttesterSlashings
+		if len(*as) == 0 {
+			if !haveFree || uint64(spec.MAX_ATTESTER_SLASHINGS) == 0 {
+				return false
+			}
+			d1 := phase0.AttestationData{Slot: common.Slot(fs.Slot), Index: 0, BeaconBlockRoot: root(5),
+				Source: common.Checkpoint{Epoch: 0, Root: root(6)}, Target: common.Checkpoint{Epoch: common.Epoch(cur), Root: root(7)}}
+			d2 := d1
+			d2.BeaconBlockRoot = root(8)
+			who := []common.ValidatorIndex{freeV}
+			*as = append(*as, phase0.AttesterSlashing{
+				Attestation1: phase0.IndexedAttestation{AttestingIndices: who, Data: d1, Signature: c.SignIndexed(s.PreBlock, &d1, who)},
+				Attestation2: phase0.IndexedAttestation{AttestingIndices: who, Data: d2, Signature: c.SignIndexed(s.PreBlock, &d2, who)}})
+		}
+		p := &(*as)[len(*as)-1]
+		a, b, ok := compensate(p.Attestation1.Signature, p.Attestation2.Signature, x)
+		p.Attestation1.Signature, p.Attestation2.Signature = a, b
+		return ok
+	})
+	add("voluntary_exits.signatures:compensating-across-two-exits", "exit.signature", func(body chain.BodyRef) bool {
+		ex := *body.VoluntaryExits
+		if len(ex) < 2 {
+			return false
+		}
+		a, b, ok := compensate(ex[0].Signature, ex[1].Signature, x)
+		ex[0].Signature, ex[1].Signature = a, b
+		return ok
+	})
+	add("voluntary_exit+randao.signatures:compensating-across-operations", "randao.signature", func(body chain.BodyRef) bool {
+		ex := *body.VoluntaryExits
+		if len(ex) < 1 {
+			return false
+		}
+		// X must differ from the randao reveal itself here: the exit's own signature doubled is a valid point too
+		a, b, ok := compensate(ex[0].Signature, *body.RandaoReveal, ex[0].Signature)
+		ex[0].Signature, *body.RandaoReveal = a, b
+		return ok
+	})
 	return out
 }
 
